@@ -2,7 +2,9 @@
 
 Cases:
   {"kind": "session", "ops": [...], "valid": bool}     real GroFile write, re-open, read
-  {"kind": "prim", "what": "fmtf"|"fmtd"|"int"|"float"|"split"|"strip"|"line"|"detfmt"|"lattice", ...}
+  {"kind": "prim", "what": "fmtf"|"fmtd"|"int"|"float"|"split"|"strip"|"line"|"detfmt"|"lattice"
+                            |"alist"|"parseauto", ...}
+  {"kind": "reader", "ops": [...] | "raw": text, "rops": [...]}   read-mode API on a written file
 """
 import math
 import os
@@ -20,8 +22,17 @@ RULE = ("session: optional setters (title 0-80 printable chars, 35% of the valid
         "just fit; velocities on/off), close; plus a malformed stream (inconsistent velocities, wrong declared "
         "count, late setters, values that do not fit, long names, width != d+5, no/double close, negative numbers) "
         "compared with the model only; plus primitive streams ('{:w.df}', '{:wd}', int(), float(), split, strip, "
-        "parse_atomlist, determine_format, lattice line) against CPython. Non-trivial = every valid session "
-        "(>= 1 record) and every primitive case; distinct by canonical hash.")
+        "parse_atomlist, determine_format, lattice line) against CPython. "
+        "Rest of the API: valid sessions in which records are handed to writeline as the STRING parse_atomlist produces "
+        "for them (first line and/or later lines; same oracle as records); malformed API stream, model only: arbitrary / "
+        "ill-formed / other-format string lines first or later, tuples of length not in (7,10) first or later, "
+        "box_matrix of a wrong shape, sessions closed without a record (count undeclared / 0 / k), writes after close; "
+        "parse_atomlist with format_dict None / position None / wrong lengths; parse_atomline with the format inferred; "
+        "float() as the nearest double; reader scripts on written and hand-made files (seek_atom inside / at / past "
+        "natoms / negative, readline parsed and raw, the four setters and wrong-shape boxes in read mode; empty file, "
+        "negative count): result, tell() and _current_atom after every op, header attributes unchanged. "
+        "Non-trivial = every valid session (>= 1 record), every primitive case and every reader script on a file "
+        "that opens; distinct by canonical hash.")
 
 
 # ----------------------------------------------------------------------------- generation
@@ -108,7 +119,55 @@ def generate(ctx):
         yield {"kind": "session", "valid": True, "ops": ops}
     for i in range(ctx.n(500, 8000)):
         yield {"kind": "session", "valid": False, "ops": G.gen_invalid_session(rng)}
+    # ---- rest of the API: string lines in the quantifier (first line, later lines), smallest first
+    r7 = [1, "RES", "A1", 1, 0.125, -0.0004, 1.5]
+    for vel in (False, True):
+        r = r7 + ([0.25, -0.5, 0.0625] if vel else [])
+        yield {"kind": "session", "valid": True, "ops": [["w", r], ["ws", r], ["x"]]}
+        yield {"kind": "session", "valid": True, "ops": [["ws", r], ["ws", r], ["x"]]}        # tests/: two string lines
+        yield {"kind": "session", "valid": True, "ops": [["f", 9, 4], ["n", 2], ["ws", r], ["w", r], ["x"]]}
+    for i in range(ctx.n(400, 6000)):
+        yield {"kind": "session", "valid": True,
+               "ops": G.gen_mixed_session(rng, max_rec=60 if i % 10 else 200, first_string=(None if i % 3 else False))}
+    # ---- closed without a record, wrong-length tuples, wrong-shape boxes: every small shape once
+    for pre in ([], [["c", "empty"]], [["n", 0]], [["n", 2]], [["f", 9, 4], ["b3", [1.0, 2.0, 3.0]]]):
+        yield {"kind": "session", "valid": False, "ops": pre + [["x"]]}
+    for n in G.BAD_LENGTHS:
+        yield {"kind": "session", "valid": False, "ops": [["t", n], ["w", r7], ["x"]]}
+        yield {"kind": "session", "valid": False, "ops": [["w", r7], ["t", n], ["x"]]}
+    for sh in G.BAD_SHAPES:
+        yield {"kind": "session", "valid": False, "ops": [["bx", sh], ["w", r7], ["bx", sh], ["x"]]}
+    for i in range(ctx.n(900, 12000)):
+        yield {"kind": "session", "valid": False, "ops": G.gen_api_session(rng)}
+    # ---- read mode
+    yield {"kind": "reader", "raw": "", "rops": [["l", False]]}
+    yield {"kind": "reader", "raw": " " * 50 + "1 2 3\n-1\n" + G.py_line(r7, 8, 3) + "\n   1.0 1.0 1.0\n", "rops": [["k", 0]]}
+    yield {"kind": "reader", "raw": "t\n 0\n" + G.py_line(r7, 8, 3) + "\n   1.0 1.0 1.0\n", "rops": [["l", True], ["k", 0], ["l", False]]}
+    for i in range(ctx.n(500, 8000)):
+        nrec = rng.randint(1, 8)
+        ops = G.gen_valid_session(rng, nrec=nrec, nonascii_titles=(i % 7 == 0))
+        title = next((o[1] for o in ops if o[0] == "c"), "")
+        yield {"kind": "reader", "ops": ops, "rops": G.gen_reader_script(rng, nrec, nonneg=not title.isascii())}
     # ---- primitives
+    for i in range(ctx.n(1200, 15000)):
+        d = rng.randint(1, 6)
+        w = rng.choice([d + 5, d + 5, 8, rng.randint(0, 12)])
+        k = rng.random()
+        if k < 0.3:
+            fd = None
+        elif k < 0.4:
+            fd = {"position": None, "velocities": rng.choice([None, True, False])}
+        else:
+            fd = {"position": [w, d], "velocities": rng.choice([None, True, False])}
+        if rng.random() < 0.3:
+            tup = {"len": rng.choice(G.BAD_LENGTHS)}
+        else:
+            tup = {"rec": G.gen_record(rng, d + 5, d, rng.random() < 0.5)}
+        yield {"kind": "prim", "what": "alist", "fd": fd, "tup": tup}
+    for i in range(ctx.n(1500, 20000)):
+        d = rng.randint(1, 6)
+        yield {"kind": "prim", "what": "parseauto", "s": G.gen_raw_line(rng, d + 5, d, rng.random() < 0.5) +
+               ("\n" if rng.random() < 0.5 else "")}
     for i in range(ctx.n(12000, 200000)):
         yield {"kind": "prim", "what": "fmtf", "w": rng.choice([0, 1, 6, 7, 8, 9, 10, 11, 12]),
                "d": rng.randint(0, 8), "x": _rand_double(rng)}
@@ -127,7 +186,7 @@ def generate(ctx):
         w = d + 5
         vel = rng.random() < 0.5
         rec = G.gen_record(rng, w, d, vel)
-        line = _py_line(rec, w, d)
+        line = G.py_line(rec, w, d)
         k = rng.random()
         if k < 0.25:
             line = line[:rng.randint(0, len(line))]
@@ -144,21 +203,13 @@ def generate(ctx):
         yield {"kind": "prim", "what": "lattice", "box": op}
 
 
-def _py_line(rec, w, d):
-    out = "{:5d}{:5s}{:>5s}{:5d}".format(rec[0] % 100000, rec[1], rec[2], rec[3] % 100000)
-    out += "".join("{:{w}.{d}f}".format(v, w=w, d=d) for v in rec[4:7])
-    if len(rec) == 10:
-        out += "".join("{:{w}.{d}f}".format(v, w=w, d=d + 1) for v in rec[7:])
-    return out
-
-
 # ----------------------------------------------------------------------------- evaluation
 
 def _session_context(ops, err=None):
     """what precedes the first record (names the failure class; stable across unrelated findings)"""
     pre = []
     for o in ops:
-        if o[0] == "w":
+        if o[0] in ("w", "ws"):
             break
         pre.append(o[0])
     title = next((o[1] for o in ops if o[0] == "c"), None)
@@ -177,7 +228,7 @@ def _oracle_session(ctx, case, errs, data, back):
     """the property's clauses on the implementation's behaviour; returns list of (key, detail)"""
     ops = case["ops"]
     fails = []
-    recs = [o[1] for o in ops if o[0] == "w"]
+    recs = [o[1] for o in ops if o[0] in ("w", "ws")]
     fmt = next(((o[1], o[2]) for o in ops if o[0] == "f"), (8, 3))
     w, d = fmt
     title = next((o[1] for o in ops if o[0] == "c"), None)
@@ -185,7 +236,8 @@ def _oracle_session(ctx, case, errs, data, back):
     # (a) no operation of a valid session raises
     for op, e in zip(ops, errs):
         if e is not None:
-            kind = {"w": "writeline", "x": "close", "c": "comment", "n": "natoms", "f": "position_format",
+            kind = {"w": "writeline", "ws": "writeline-str" + ("-first" if op is ops[len(ops) - len(recs) - 1] else ""),
+                    "x": "close", "c": "comment", "n": "natoms", "f": "position_format",
                     "b3": "box_matrix", "b9": "box_matrix"}[op[0]]
             fails.append((f"{kind}-raises-{e}:{_session_context(ops, e)}", {"op": op, "errors": errs}))
             return fails
@@ -258,10 +310,40 @@ def _oracle_session(ctx, case, errs, data, back):
     return fails
 
 
+def _count_api(ctx, ops, errs):
+    """branch counters for the rest of the writer API (first line = the header does not exist yet)"""
+    header = False
+    closed = False
+    for o, e in zip(ops, errs):
+        k = o[0]
+        if k in ("w", "ws", "s", "t"):
+            where = "first" if not header else "later"
+            tail = (":after-close" if closed else "") + (":raises-" + e if e else "")
+            if k == "ws":
+                ctx.count(f"api-string-line-in-quantifier:{where}{tail}")
+            elif k == "s":
+                ctx.count(f"api-string-line-any:{where}{tail}")
+            elif k == "t":
+                ctx.count(f"api-tuple-wrong-length:{where}{tail}")
+                ctx.count(f"api-tuple-len-{o[1]}")
+            if not closed and (k == "t" or e is None):
+                header = True               # a wrong-length tuple as the first line DOES write the header
+        elif k == "bx":
+            ctx.count("api-box-bad-shape:" + ("before-first-line" if not header else "after-first-line") +
+                      (":raises-" + e if e else ":ACCEPTED"))
+        elif k == "x":
+            if not header and not closed:
+                decl = [p[1] for p in ops if p[0] == "n"]
+                ctx.count("api-close-without-record:" + ("undeclared" if not decl else "declared-0" if decl[-1] == 0
+                                                         else "declared-k") + (":raises-" + e if e else ":ok"))
+            if e is None:
+                closed = True
+
+
 def _eval_session(ctx, case):
     ops = case["ops"]
     valid = bool(case.get("valid"))
-    recs = [o for o in ops if o[0] == "w"]
+    recs = [o for o in ops if o[0] in ("w", "ws")]
     ctx.case(case, nontrivial=valid and len(recs) >= 1,
              sample={"kind": "session", "valid": valid, "nops": len(ops), "ops_head": ops[:4]})
     ctx.count("session-valid" if valid else "session-malformed")
@@ -285,6 +367,7 @@ def _eval_session(ctx, case):
     errs, data, _ = G.run_session(path, ops)
     back = G.read_back(path)
     os.unlink(path)
+    _count_api(ctx, ops, errs)
     for e in errs:
         if e:
             ctx.count("op-raises-" + e)
@@ -300,6 +383,9 @@ def _eval_session(ctx, case):
         merrs = [t.next() for _ in range(n)]
         merrs = [None if e == "-" else e for e in merrs]
         mbytes = t.bytes().encode("latin-1")
+        if "unmodelled" in merrs:
+            ctx.count("skipped-unmodelled")       # a string line with inf / nan / '_' / non-ASCII as the first line
+            return
         if merrs != errs:
             ctx.disagree(case, "exceptions raised by the writer ops", errs, merrs)
         elif mbytes != data:
@@ -370,6 +456,26 @@ def _eval_prim(ctx, case):
             if not same:
                 ctx.disagree(case, what + "()", impl, m)
         ctx.model.ask("ps_" + what, hexs(s), cb, case)
+        if what == "float":
+            def cb3(status, toks, case, impl=impl):
+                if status == "err":
+                    if toks[0] != "unmodelled" and impl[0] != "err":
+                        ctx.disagree(case, "float() nearest double", impl, ("err", toks[0]))
+                    return
+                if impl[0] == "err":
+                    ctx.disagree(case, "float() nearest double", impl, ("ok", toks))
+                    return
+                v = impl[1]
+                if toks[0] == "X":
+                    ok = math.isinf(v) or math.isnan(v)
+                else:
+                    sg, m, e = int(toks[1]), int(toks[2]), int(toks[3])
+                    mv = math.ldexp(m, e)
+                    ok = G.same_float(-mv if sg else mv, v)
+                ctx.count("float-nearest-double-compared")
+                if not ok:
+                    ctx.disagree(case, "float() nearest double", v, toks)
+            ctx.model.ask("ps_float_dy", hexs(s), cb3, case)
     elif what in ("split", "strip"):
         s = case["s"]
         impl = s.split() if what == "split" else s.strip()
@@ -415,6 +521,57 @@ def _eval_prim(ctx, case):
             if not same:
                 ctx.disagree(case, "parse_atomline", impl2, m)
         ctx.model.ask("gro_parseline", f"{nfig} {1 if vel else 0} {hexs(s)}", cb2, case)
+    elif what == "alist":
+        from gaddlemaps.parsers import GroFile
+        fd, tup = case["fd"], case["tup"]
+        if "rec" in tup:
+            r = tup["rec"]
+            arg = (int(r[0]), str(r[1]), str(r[2]), int(r[3])) + tuple(float(v) for v in r[4:])
+            ttok = "r " + G.rec_tokens(r)
+        else:
+            arg = tuple(range(int(tup["len"])))
+            ttok = f"o {int(tup['len'])}"
+        if fd is None:
+            pyfd, ftok = None, "N"
+            ctx.count("alist-format_dict-None")
+        else:
+            pos = tuple(fd["position"]) if fd["position"] is not None else None
+            pyfd = {"position": pos, "velocities": fd["velocities"]}
+            fv = 2 if fd["velocities"] is None else (1 if fd["velocities"] else 0)
+            ftok = (f"D P {pos[0]} {pos[1]} {fv}" if pos is not None else f"D - {fv}")
+            ctx.count("alist-position-None" if pos is None else "alist-format_dict-given")
+        import warnings
+        with warnings.catch_warnings():
+            warnings.simplefilter("ignore")
+            try:
+                impl = ("ok", GroFile.parse_atomlist(arg, pyfd) if pyfd is not None else GroFile.parse_atomlist(arg))
+            except Exception as e:      # noqa: BLE001
+                impl = ("err", type(e).__name__)
+        ctx.count("alist-" + (impl[1] if impl[0] == "err" else "ok"))
+
+        def cb(status, toks, case, impl=impl):
+            m = ("err", toks[0]) if status == "err" else ("ok", unhexs(toks[0]))
+            if m != impl:
+                ctx.disagree(case, "parse_atomlist", impl, m)
+        ctx.model.ask("gro_alist", ftok + " " + ttok, cb, case)
+    elif what == "parseauto":
+        from gaddlemaps.parsers import GroFile
+        s = case["s"]
+        try:
+            impl = ("ok", tuple(GroFile.parse_atomline(s)))
+        except Exception as e:      # noqa: BLE001
+            impl = ("err", type(e).__name__)
+        ctx.count("parseauto-" + (impl[1] if impl[0] == "err" else "ok"))
+
+        def cb(status, toks, case, impl=impl):
+            if status == "err" and toks[0] == "unmodelled":
+                ctx.count("skipped-unmodelled")
+                return
+            m = ("err", toks[0]) if status == "err" else ("ok", G.Toks(toks).rrec())
+            same = m[0] == impl[0] and (m[1] == impl[1] if m[0] == "err" else G.same_rec(m[1], impl[1]))
+            if not same:
+                ctx.disagree(case, "parse_atomline(format_dict=None)", impl, m)
+        ctx.model.ask("gro_parseauto", hexs(s), cb, case)
     elif what == "lattice":
         import numpy as np
         from gaddlemaps.parsers import dump_lattice_gro, extract_lattice_gro
@@ -443,7 +600,87 @@ def _eval_prim(ctx, case):
         raise ValueError("unknown primitive " + what)
 
 
+def _eval_reader(ctx, case):
+    rops = case["rops"]
+    path = os.path.join(ctx.scratch, f"c13-r{ctx.evaluations % 3}.gro")
+    common.decoy(path, "gro")
+    if "raw" in case:
+        data = G.text_bytes(case["raw"])
+        G.write_file(path, data)
+        ctx.count("reader-file-handmade")
+    else:
+        errs, data, _ = G.run_session(path, case["ops"])
+        if any(e is not None for e in errs):
+            ctx.count("reader-session-raised")
+        ctx.count("reader-file-written")
+    impl = G.run_reader(path, rops)
+    os.unlink(path)
+    opened = "open_err" not in impl
+    ctx.case(case, nontrivial=opened, sample={"kind": "reader", "nrops": len(rops), "rops_head": rops[:4]})
+    if not opened:
+        ctx.count("reader-open-" + impl["open_err"])
+    else:
+        natoms = impl["natoms"]
+        cur = 0
+        for op, (res, pos, c) in zip(rops, impl["results"]):
+            if op[0] == "k":
+                where = ("negative" if op[1] < 0 else "inside" if op[1] < natoms else "at-natoms" if op[1] == natoms
+                         else "past-natoms")
+                ctx.count(f"reader-seek_atom:{where}:" + (res[1] if res[0] == "E" else "ok"))
+            elif op[0] == "l":
+                ctx.count(("reader-readline-parsed:" if op[1] else "reader-readline-raw:") +
+                          (res[1] if res[0] == "E" else ("empty" if res[0] == "L" and res[1] == "" else "ok")))
+            else:
+                ctx.count(f"reader-setter-{op[0]}:" + (res[1] if res[0] == "E" else "ACCEPTED"))
+            cur = c
+        if impl["header_changed"]:
+            ctx.count("reader-header-changed")
+    if not G.modelled_text(data):
+        ctx.count("skipped-non-ascii-file")
+        return
+
+    def cb(status, toks, case, impl=impl):
+        m = G.parse_rsession_response(status, toks)
+        if m.get("open_err") == "unmodelled":
+            ctx.count("skipped-unmodelled")
+            return
+        if ("open_err" in impl) or ("open_err" in m):
+            if impl.get("open_err") != m.get("open_err"):
+                ctx.disagree(case, "reader: open error", impl.get("open_err"), m.get("open_err"))
+            return
+        hdr = G.compare_read({k: impl[k] for k in ("title", "natoms", "init", "size", "fmt", "vel", "box")},
+                             {k: m[k] for k in ("title", "natoms", "init", "size", "fmt", "vel", "box")})
+        if hdr:
+            ctx.disagree(case, "reader header: " + hdr, impl, m)
+            return
+        if impl["header_changed"]:
+            ctx.disagree(case, "a read-mode operation changed a header attribute", impl["header_changed"], [])
+            return
+        for i, ((ri, pi, ci), (rm, pm, cm)) in enumerate(zip(impl["results"], m["results"])):
+            if rm[0] == "E" and rm[1] == "unmodelled":
+                ctx.count("skipped-unmodelled")
+                return
+            if ri[0] != rm[0]:
+                same = False
+            elif ri[0] == "P":
+                same = G.same_rec(ri[1], rm[1])
+            elif ri[0] == "L":
+                try:
+                    same = G.text_bytes(ri[1]).decode("latin-1") == rm[1]
+                except UnicodeEncodeError:
+                    same = False
+            else:
+                same = ri == rm
+            if not same or pi != pm or ci != cm:
+                ctx.disagree(case, f"reader op #{i} {case['rops'][i]!r}: result / tell() / _current_atom",
+                             [ri, pi, ci], [rm, pm, cm])
+                return
+    ctx.model.ask("gro_rsession", hexs(data) + " " + G.rops_tokens(rops), cb, case)
+
+
 def evaluate(ctx, case):
+    if case["kind"] == "reader":
+        return _eval_reader(ctx, case)
     if case["kind"] == "session":
         return _eval_session(ctx, case)
     if case["kind"] == "prim":
